@@ -71,6 +71,7 @@ pub struct Oracle {
     probed: BTreeSet<Entity>,
     liveness_checked: usize,
     liveness_excused: bool,
+    c20_calls_seen: usize,
     c06_epochs_done: BTreeSet<u64>,
     c06_artifacts_done: BTreeSet<String>,
     pub avk_by_epoch: BTreeMap<u64, String>,
@@ -94,6 +95,7 @@ impl Oracle {
             probed: BTreeSet::new(),
             liveness_checked: 0,
             liveness_excused: false,
+            c20_calls_seen: 0,
             c06_epochs_done: BTreeSet::new(),
             c06_artifacts_done: BTreeSet::new(),
             avk_by_epoch: BTreeMap::new(),
@@ -305,6 +307,9 @@ impl Oracle {
 
         if self.is("C06") {
             self.check_client_path_c06(w, step);
+        }
+        if self.is("C20") {
+            self.check_c20(w, &open_messages, step);
         }
 
         // ---------------- single-signature rows (C16)
@@ -899,6 +904,152 @@ impl Oracle {
                 self.report(step, "certificate-names-non-signer", format!(
                     "certificate {} for {} lists party {} among its signers although no signature made with that party's key was ever delivered for it",
                     short(&c.hash), entity.label(), short(&name)));
+            }
+        }
+    }
+
+    // ---------------------------------------------------------------- C20
+
+    /// Registration the aggregator holds for `party` at recording epoch `rec`, from the wire:
+    /// the verification key of the last register-signer request that the aggregator answered
+    /// with 201 (whether or not the signer saw the answer), made no later than `up_to` (index).
+    fn c20_registered_key(calls: &[crate::signer::LinkCall], party: usize, rec: u64, up_to: usize) -> Option<String> {
+        let mut body = None;
+        for c in calls[..up_to.min(calls.len())].iter() {
+            if c.party == party && c.kind == "register-signer" && c.status == Some(201) {
+                let Ok(v) = serde_json::from_str::<serde_json::Value>(&c.body) else { continue };
+                if v["epoch"].as_u64() == Some(rec) {
+                    body = Some(c.body.clone());
+                }
+            }
+        }
+        body
+    }
+
+    fn c20_signers(w: &World, calls: &[crate::signer::LinkCall], epoch: u64, up_to: usize) -> Vec<SignerWithStake> {
+        use mithril_common::messages::{RegisterSignerMessage, TryFromMessageAdapter};
+        let mut out = vec![];
+        if epoch == 0 {
+            return out;
+        }
+        for p in 0..w.parties.len() {
+            let Some(body) = Self::c20_registered_key(calls, p, epoch - 1, up_to) else { continue };
+            let Ok(message) = serde_json::from_str::<RegisterSignerMessage>(&body) else { continue };
+            let Ok(signer) = mithril_aggregator::FromRegisterSignerAdapter::try_adapt(message) else { continue };
+            out.push(SignerWithStake::from_signer(signer, crate::world::stake_for(&w.sc, p, epoch - 1)));
+        }
+        out
+    }
+
+    fn check_c20(&mut self, w: &mut World, open_messages: &[crate::db::OpenMessageRow], step: usize) {
+        let calls: Vec<crate::signer::LinkCall> = w.link.calls.lock().unwrap().clone();
+        let from = self.c20_calls_seen;
+        self.c20_calls_seen = calls.len();
+        for (idx, c) in calls.iter().enumerate().skip(from) {
+            if c.kind != "register-signatures" || c.fault == "duplicate" {
+                continue;
+            }
+            let Ok(v) = serde_json::from_str::<serde_json::Value>(&c.body) else { continue };
+            let Ok(entity_real) = serde_json::from_value::<mithril_common::entities::SignedEntityType>(v["entity_type"].clone()) else { continue };
+            let entity = Entity::from_real(&entity_real);
+            let signature = v["signature"].as_str().unwrap_or("").to_string();
+            let message = v["signed_message"].as_str().unwrap_or("").to_string();
+            let e = entity.signing_epoch();
+            self.probe("c20_publish_attempts");
+            // (i) exactly once
+            let earlier: Vec<&crate::signer::LinkCall> = calls[..idx]
+                .iter()
+                .filter(|x| x.party == c.party && x.kind == "register-signatures" && x.fault != "duplicate")
+                .filter(|x| {
+                    serde_json::from_str::<serde_json::Value>(&x.body)
+                        .ok()
+                        .and_then(|b| serde_json::from_value::<mithril_common::entities::SignedEntityType>(b["entity_type"].clone()).ok())
+                        .map(|t| Entity::from_real(&t) == entity)
+                        .unwrap_or(false)
+                })
+                .collect();
+            if let Some(prev) = earlier.iter().find(|x| x.acked) {
+                self.report(step, "signed-twice", format!(
+                    "signer {} publishes a signature for {} again (step {}) although its earlier publication was acknowledged at step {}",
+                    c.party, entity.label(), c.step, prev.step));
+            }
+            for prev in &earlier {
+                let prev_sig = serde_json::from_str::<serde_json::Value>(&prev.body).ok().and_then(|b| b["signature"].as_str().map(|s| s.to_string())).unwrap_or_default();
+                if prev_sig != signature {
+                    self.report(step, "retry-with-different-signature", format!(
+                        "signer {} retries the publication for {} with a different signature than at step {}", c.party, entity.label(), prev.step));
+                }
+            }
+            if !earlier.is_empty() {
+                self.probe("c20_retries_after_unacknowledged_publish");
+            }
+            // (iv) never signs without a registration eligible for the epoch
+            let signers = Self::c20_signers(w, &calls, e, idx);
+            let me = w.parties[c.party].party_id.clone();
+            if !signers.iter().any(|s| s.party_id == me) {
+                self.report(step, "signed-without-registration", format!(
+                    "signer {} publishes a signature for {} (signing epoch {e}) although the aggregator never acknowledged a registration of it for that epoch's key set", c.party, entity.label()));
+                continue;
+            }
+            // (ii) made with the key registered for the epoch whose stake distribution is in force
+            if let Err(why) = Self::verify_under_key(w, &signers, &me, &signature, &[], &message) {
+                let mut made_with = String::new();
+                for (label, other) in [("the following epoch", e + 1), ("the preceding epoch", e.saturating_sub(1))] {
+                    let s2 = Self::c20_signers(w, &calls, other, idx);
+                    if s2.iter().any(|s| s.party_id == me) && Self::verify_under_key(w, &s2, &me, &signature, &[], &message).is_ok() {
+                        made_with = format!("; it verifies under the key set of {label}");
+                    }
+                }
+                self.report(step, "wrong-key", format!(
+                    "the signature signer {} publishes for {} does not verify under the key it registered for signing epoch {e} ({}){made_with}",
+                    c.party, entity.label(), crate::world::first_line(&why)));
+                continue;
+            }
+            // (iii) acceptance by the aggregator
+            if let Some(status) = c.status
+                && !matches!(status, 201 | 202 | 410)
+            {
+                let open = open_messages.iter().find(|o| o.entity == entity && !o.is_certified && !o.is_expired);
+                let agg_message = open.and_then(|o| serde_json::from_str::<ProtocolMessage>(&o.protocol_message_json).ok()).map(|p| p.to_message());
+                let reason = match &agg_message {
+                    None => "no matching open message".to_string(),
+                    Some(m) if *m != message => "the aggregator's open message carries a different protocol message (signer and aggregator computed different messages for the same beacon)".to_string(),
+                    Some(_) => "same message, registered key".to_string(),
+                };
+                // an aggregator that has just been restarted has not derived its signer set yet (its
+                // epoch service is initialised by its first cycle): a rejection then is transient
+                let last_restart = w.restarts_at.last().copied().unwrap_or(0);
+                let ticked_since = w.tick_log.iter().rev().take_while(|t| t.0 > last_restart).filter(|t| t.1 != "idle" || t.2.is_none()).count();
+                if agg_message.is_some() && ticked_since < 2 {
+                    self.probe("c20_rejected_by_freshly_restarted_aggregator");
+                } else if agg_message.is_some() {
+                    self.report(step, "valid-signature-rejected", format!(
+                        "the aggregator answered {status} to the signature signer {} published for {} while that round was open: {reason}; response: {}",
+                        c.party, entity.label(), crate::world::first_line(&c.response)));
+                } else {
+                    self.probe("c20_rejected_without_matching_round");
+                }
+            } else if matches!(c.status, Some(201 | 202)) {
+                self.probe("c20_publications_accepted");
+            }
+        }
+        // (v) bounded liveness at the end of the quiescence script
+        if w.liveness_markers > self.liveness_checked {
+            self.liveness_checked = w.liveness_markers;
+            if w.liveness_markers == 3 {
+                let f = w.epoch;
+                for (p, node) in w.signers.iter().enumerate() {
+                    let registered = Self::c20_registered_key(&calls, p, f - 1, calls.len()).is_some();
+                    let last_state = w.signer_ticks.iter().rev().find(|t| t.1 == p).map(|t| t.2.clone()).unwrap_or_default();
+                    let _ = node;
+                    if registered && last_state != format!("ready-to-sign({f})") {
+                        self.report(step, "signer-not-ready-after-faults", format!(
+                            "faults stopped two epochs ago, signer {p} registered for epoch {f} but ends in state '{last_state}'"));
+                    }
+                    if registered {
+                        self.probe("c20_liveness_signers_ready");
+                    }
+                }
             }
         }
     }
